@@ -5,7 +5,7 @@
 # relabelled inputs, and repository corpus files, x the writer configurations; the arithmetic model is
 # compared with what the real outputs contain (/W widths, members per object stream, xref lines).
 import os, re
-import common, filecheck, pdfgen
+import common, filecheck, pdfgen, dociso
 from pdfgen import Name, Ref, Stream
 
 ASSUMPTIONS = [
@@ -31,7 +31,7 @@ def form_check(cfg, sd, inp_name):
     objstm = sorted(set((w[1], 0) for w in sd.where.values() if w[0] == "c"))
     forced = [c.split("=")[1] for c in cfg if c.startswith("--force-version=")]
     ver = tuple(int(x) for x in sd.version.split("."))
-    if "--object-streams=disable" in cfg or (forced and tuple(int(x) for x in forced[0].split(".")) < (1, 5)):
+    if "--object-streams=disable" in cfg or (forced and tuple(int(x) for x in forced[0].split(".")[:2]) < (1, 5)):
         if comp or objstm or sd.xref_stream:
             probs.append("object streams / xref stream present although disabled (%d compressed, %d ObjStm, xref_stream=%s)" % (len(comp), len(objstm), sd.xref_stream))
     if "--object-streams=generate" in cfg and not forced:
@@ -90,10 +90,33 @@ def form_check(cfg, sd, inp_name):
     mins = [c.split("=")[1] for c in cfg if c.startswith("--min-version=")]
     if mins and not forced and ver < tuple(int(x) for x in mins[0].split(".")[:2]):
         probs.append("header version %s below requested minimum %s" % (sd.version, mins[0]))
-    if forced and sd.version != forced[0]:
+    # (a third component is the Adobe extension level: it goes into /Extensions /ADBE, not into the header)
+    if forced and sd.version != ".".join(forced[0].split(".")[:2]):
         probs.append("header version %s differs from forced %s" % (sd.version, forced[0]))
     if has_flag(cfg, "--bits=256") and ver < (1, 7):
         probs.append("256-bit encryption with header %s" % sd.version)
+    # minimum version for the encryption scheme actually written (ISO 32000-1 Table 20/21 and the versions that introduced
+    # them: RC4-128 / V2 in PDF 1.4, crypt filters / V4 in 1.5, AESV2 in 1.6, AESV3 in 1.7 ext 3), read off the output's own
+    # encryption dictionary
+    encd = dociso.resolve(sd.objs, sd.trailer.get(b"Encrypt")) if b"Encrypt" in sd.trailer else None
+    if isinstance(encd, dict) and not forced:
+        V = dociso.resolve(sd.objs, encd.get(b"V")) or 0
+        cf = dociso.resolve(sd.objs, encd.get(b"CF")) or {}
+        cfms = set()
+        for v in (cf.values() if isinstance(cf, dict) else []):
+            v = dociso.resolve(sd.objs, v)
+            m = dociso.resolve(sd.objs, v.get(b"CFM")) if isinstance(v, dict) else None
+            if isinstance(m, Name):
+                cfms.add(m.b)
+        need = (1, 1)
+        if V == 2:
+            need = (1, 4)
+        if V == 4:
+            need = (1, 6) if b"AESV2" in cfms else (1, 5)
+        if V >= 5:
+            need = (1, 7)
+        if ver < need:
+            probs.append("encryption V=%s %s needs header >= %d.%d but the file says %s" % (V, sorted(c.decode() for c in cfms), need[0], need[1], sd.version))
     return probs
 
 
@@ -283,6 +306,33 @@ def run(chk):
             name, p, kind, c = jobs[i]
             chk.violation({"kind": "property-fails-on-implementation", "why": "qpdf --check of its own output is not clean", "input": p,
                            "argv": ["qpdf", "--static-id"] + c + [p, "out.pdf"], "check_exit": rc, "stderr": se.decode("latin-1")[-300:]})
+    # ---- outputs around 2^24 bytes (too large for the extracted reader): Python-side structural oracle + the arithmetic model
+    big_jobs = []
+    for target in ([2 ** 24] if quick else [2 ** 24, 2 ** 24 + 2 ** 16]):
+        for delta in ((-2000, 3000) if quick else (-4000, -2000, -300, 300, 3000)):
+            pad = target + delta - 900
+            p = os.path.join(wd, "bigpad%d.pdf" % pad)
+            open(p, "wb").write(pdfgen.write_classic(filecheck.padded_doc(pad))[0])
+            for cfg in (["--object-streams=generate", "--compress-streams=n"], ["--object-streams=disable", "--compress-streams=n"]):
+                big_jobs.append((p, cfg, os.path.join(wd, "bigout%d_%d.pdf" % (pad, len(big_jobs)))))
+    def bigrun(t):
+        p, cfg, out = t
+        rc, se = filecheck.run_write(p, cfg, out)
+        return rc, (filecheck.big_xref_check(out) if rc == 0 else ["write failed: %s" % se.decode("latin-1")[-200:]])
+    nbig = set()
+    for (p, cfg, out), (rc, probs) in zip(big_jobs, common.par_map(bigrun, big_jobs, workers=4)):
+        sz = os.path.getsize(out) if os.path.exists(out) else 0
+        if probs:
+            chk.violation({"kind": "property-fails-on-implementation", "why": "output around 2^24 bytes is not well-formed: " + probs[0], "input": p,
+                           "argv": ["qpdf", "--static-id"] + cfg + [p, "out.pdf"], "output_size": sz, "problems": probs}, signature="big:" + probs[0][:30])
+        else:
+            nbig.add((os.path.basename(p), " ".join(cfg), sz > 2 ** 24))
+        for f in (out,):
+            if os.path.exists(f):
+                os.unlink(f)
+    for p in set(j[0] for j in big_jobs):
+        os.unlink(p)
+    chk.count("outputs-around-2^24", len(big_jobs), nbig, samples=[{"sizes_above_2^24": sum(1 for x in nbig if x[2]), "below": sum(1 for x in nbig if not x[2])}])
     if tie_diffs:
         chk.violation({"kind": "correspondence-broken", "correspondence": "corr:C02:writer-arithmetic", "differing_cases": len(tie_diffs),
                        "first_cases": tie_diffs[:3]}, no_input=True)
